@@ -108,10 +108,11 @@ func jStream(data []byte, mode string, failAt int) {
 			return "eof"
 		case errors.Is(err, errReader):
 			return "readerr"
-		case errors.Is(err, io.ErrUnexpectedEOF):
-			return "ueof"
 		}
-		return "syntax"
+		// a syntax error and an unexpected end of input are one class: the property only demands `an error other than
+		// io.EOF` there, and the two libraries rank the two conditions differently when a truncated value also contains
+		// an invalid escape (encoding/json reports the escape, the package waits for the closing quote)
+		return "badinput"
 	}
 	var orc string
 	impl := guarded(func() string {
